@@ -122,6 +122,17 @@ CLAIMS = {
         design="6/C18"),
 }
 
+CLAIMS["C09"] = dict(
+    text="Theorems on the deep embedding: for each expression and statement shape of the documented style (conditional expression, "
+         "and/or/not as conditions, if/else with assignments to one target, assignment without else, augmented assignments in both "
+         "branches, returns in both branches) the array form (strict where / logical_*) yields the original's value whenever it succeeds; "
+         "the two shapes the Transformer accepts but gets wrong are refuted by witnesses. Obligation regenerated every run: every `if` of "
+         "every translated rule has a sound or loudly rejected shape and no rule reduces over a list of columns — except the nine listed "
+         "rules. Tie: U8 runs the REAL make_vectorizable on every rule and on 14 style / off-style functions and compares every position "
+         "(it finds exactly the nine rules). The purity half of the property is decided under C14.",
+    technique="Coq proof (Vectorize.v shape lemmas + refutations) + reflective shape check over regenerated rule ASTs + differential U8 on the real rewriter",
+    design="6/C09")
+
 CLAIMS["C20"] = dict(
     text="Theorems on the model of the input checks and of the coercion: accepted data have unique p_ids, valid non-self pointers, "
          "group-constant group-level inputs and no duplicate column names (each fault class => rejection); a successful conversion never "
